@@ -233,7 +233,8 @@ BAD = {
         ('24:00-1:00', 'hour 24'), ('12:60 - 13:00', 'minute 60'), ('12:30:60/13:00', 'second 60'),
         ('1:00-2:00-3:00', 'three endpoints'), ('12:00', 'missing endpoint'), ('12:00-', 'missing endpoint'),
         ('-12:00', 'missing endpoint'), ('ab:cd-1:00', 'garbage'), ('12:30+01:00/13:00', 'time zone'),
-        ('T12:30Z/T13:00', 'time zone'), ('1:2:3:4-5:00', 'too many fields'), ('12h30-13:00', 'garbage'),
+        ('T12:30Z/T13:00', 'time zone'), ('12:30Z - 13:00Z', 'time zone'), ('12:30+00:00/13:00', 'time zone'),
+        ('12:30-00:00/13:00', 'time zone'), ([['10:00Z', [11, 30]]], 'time zone'), ('1:2:3:4-5:00', 'too many fields'), ('12h30-13:00', 'garbage'),
         ([[[24, 0], [1, 0]]], 'hour 24'), ([[[12, 60], [1, 0]]], 'minute 60'),
         ([[[], [1, 0]]], 'sequence of wrong length'), ([[[1, 2, 3, 4, 5], [1, 0]]], 'sequence of wrong length'),
         ([[[1, 0]]], 'missing endpoint'), ([[[1, 0], [2, 0], [3, 0]]], 'three endpoints'),
@@ -254,7 +255,8 @@ BAD = {
     'datetime': [
         ('2020-02-30 12:00 / 2020-03-01 12:00', 'Feb 30'), ('2021 Feb 29 1:00 / 2021 Mar 1 1:00', 'Feb 29 in a common year'),
         ('2020 Mar 1 / 2020 Mar 2 12:00', 'missing time'), ('Mar 1 12:00 / 2020 Mar 2 12:00', 'missing year'),
-        ('2020-03-01T12:00+00:00/2020-03-02T12:00', 'time zone'), ('2020 Mar 1 12:00', 'missing endpoint'),
+        ('2020-03-01T12:00+00:00/2020-03-02T12:00', 'time zone'),
+        ('2020-03-01T12:00Z/2020-03-02T12:00Z', 'time zone'), ('2020-03-01T12:00+02:00/2020-03-02T12:00', 'time zone'), ('2020 Mar 1 12:00', 'missing endpoint'),
         ('2020 1 12:00 / 2020 Mar 2 12:00', 'missing month'), ('2020 Mar 12:00 / 2020 Mar 2 12:00', 'missing day'),
         ('2020 Mar 1 24:00 / 2020 Mar 2 12:00', 'hour 24'), ('2020 Mar 1 2 12:00 / 2020 Mar 2 12:00', 'extra token'),
         ('2020-03-01T12:00/2020-03-02T12:00/2020-03-03T12:00', 'three endpoints'),
@@ -311,15 +313,21 @@ def strategy(tier):
 
 
 def exhaustive(tier):
+    def bad():
+        for kind, lst in BAD.items():
+            for idx in range(len(lst)):
+                for wrap in ('plain', 'with_valid'):
+                    yield {'k': 'bad', 'kind': kind, 'idx': idx, 'wrap': wrap}
     if tier != 'thorough':
-        return None
+        return ("every entry of the list of malformed specifications, alone and after a valid range", bad())
 
     def gen():
+        yield from bad()
         for i in range(366):
             yield {'k': 'exh_date', 'start': i}
         for i in range(1440):
             yield {'k': 'exh_time', 'start': i}
-    return ("all 366x366 date ranges, membership checked on all 366 days of a leap year; all "
+    return ("every entry of the list of malformed specifications; all 366x366 date ranges, membership checked on all 366 days of a leap year; all "
             "1440x1440 minute-grid time ranges, membership checked at both endpoints and their "
             "+-1 us neighbours", gen())
 
